@@ -319,6 +319,151 @@ Proof.
     match goal with Hw : wakeable _ CI = true, Hr : readable _ CI = false |- _ => rewrite wakeable_CI in Hw; congruence end.
 Qed.
 
+(* the same for an arbitrary accounting queue qh, for the steps that do not look at the real queue: they leave it alone and
+   get closer whatever is taken to lie ahead *)
+Definition mua (qh : list msg) (s : sys) : nat :=
+  W (g_sockets (s_g s)) (g_evd (s_g s)) (g_il (s_g s)) qh + pen s.
+
+Lemma int_step_any : forall s, wf smode emode s -> g_ist (s_g s) = ILive -> blocked (s_g s) (g_il (s_g s)) = false ->
+  replies_only (g_il (s_g s)) -> (forall w, l_pc (g_il (s_g s)) <> PRecvCS CI w) ->
+  exists s' ev, sys_step s (LStep I CRun) = Some (s', ev) /\
+    (g_ist (s_g s') = IExited \/
+     (g_ist (s_g s') = ILive /\ c_q (g_ci (s_g s')) = c_q (g_ci (s_g s)) /\ c_rcvd (g_ci (s_g s')) = c_rcvd (g_ci (s_g s)) /\
+      forall qh, mua qh s' < mua qh s)).
+Proof.
+  intros s W0 Hl Hb Hro Hncs.
+  destruct (step_enabled false absorb_n no_limit react _ _ Hb) as [[[g' l'] e] Hx].
+  exists (mkS (set_il l' g') (s_l s)), e. split; [simpl; rewrite Hl, Hx; reflexivity|].
+  pose proof (wf_ipc _ _ _ W0 Hl) as Hi.
+  pose proof (wf_live_sock _ _ _ W0 Hl) as Hsock.
+  apply step_spec in Hx.
+  pose proof (Step_const _ _ _ _ _ _ _ _ _ _ Hx) as [Hc1 Hc2].
+  unfold mua. simpl.
+  assert (Hpen0 : forall l g, will_look (g_evd g) (l_pc l) = true -> pen (mkS (set_il l g) (s_l s)) = 0)
+    by (intros l g H; apply pen_zero; exact H).
+  assert (Hpen1 : forall l g, will_look (g_evd (s_g s)) (l_pc (g_il (s_g s))) = false ->
+            (readable (s_g s) CI = true -> readable g CI = true) -> pen (mkS (set_il l g) (s_l s)) <= pen s).
+  { intros l g H1 H2. apply pen_mono; auto. }
+  destruct (g_il (s_g s)) as [p k] eqn:El.
+  inversion Hx; subst; clear Hx; unfold ipc_ok in Hi; simpl in Hi; try contradiction.
+  - (* 1: a reply is appended *)
+    destr_k k. assert (x = CO) by (unfold replies_only in Hro; simpl in Hro; tauto). subst x.
+    right. split; [exact Hl|]. split; [first [reflexivity | destruct (F9 CI) as (Q1 & Q2 & Q3); simpl in Q1; exact Q1 | destruct (F9 CI) as (Q1 & Q2 & Q3 & Q4); simpl in Q1; exact Q1]|]. split; [first [reflexivity | destruct (F9 CI) as (Q1 & Q2 & Q3); simpl in Q3; exact Q3 | destruct (F9 CI) as (Q1 & Q2 & Q3 & Q4); simpl in Q3; exact Q3]|]. intros qh. rewrite Hpen0 by reflexivity. unfold W, wloop, final; simpl; lia.
+  - (* 2: its signal *)
+    destr_k k. assert (x = CO) by (unfold replies_only in Hro; simpl in Hro; tauto). subst x.
+    assert (Hco : all_co rs) by (unfold replies_only in Hro; simpl in Hro; tauto).
+    match goal with Hs : signal _ _ _ = _ |- _ => sig_frame Hs end.
+    match goal with Hr : ret _ _ _ _ = _ |- _ => simpl in Hr; rename Hr into HR end.
+    right. split; [congruence|]. split; [first [reflexivity | destruct (F9 CI) as (Q1 & Q2 & Q3); simpl in Q1; exact Q1 | destruct (F9 CI) as (Q1 & Q2 & Q3 & Q4); simpl in Q1; exact Q1]|]. split; [first [reflexivity | destruct (F9 CI) as (Q1 & Q2 & Q3); simpl in Q3; exact Q3 | destruct (F9 CI) as (Q1 & Q2 & Q3 & Q4); simpl in Q3; exact Q3]|]. intros qh.
+    rewrite Hpen0 by (eapply next_reply_looks; exact HR).
+    rewrite ?F1.
+    pose proof (W_next_reply (g_sockets (s_g s)) _ _ _ _ _ _ qh Hco HR) as HW.
+    rewrite F2 in *. eapply Nat.lt_le_trans; [rewrite Nat.add_0_r; exact HW|]. unfold W; simpl; lia.
+  - (* 3 *)
+    destr_k k. assert (x = CO) by (unfold replies_only in Hro; simpl in Hro; tauto). subst x.
+    assert (Hco : all_co rs) by (unfold replies_only in Hro; simpl in Hro; tauto).
+    match goal with Hr : ret _ _ _ _ = _ |- _ => simpl in Hr; rename Hr into HR end.
+    right. split; [exact Hl|]. split; [first [reflexivity | destruct (F9 CI) as (Q1 & Q2 & Q3); simpl in Q1; exact Q1 | destruct (F9 CI) as (Q1 & Q2 & Q3 & Q4); simpl in Q1; exact Q1]|]. split; [first [reflexivity | destruct (F9 CI) as (Q1 & Q2 & Q3); simpl in Q3; exact Q3 | destruct (F9 CI) as (Q1 & Q2 & Q3 & Q4); simpl in Q3; exact Q3]|]. intros qh.
+    rewrite Hpen0 by (eapply next_reply_looks; exact HR).
+    pose proof (W_next_reply (g_sockets (s_g s)) _ _ _ _ _ _ qh Hco HR) as HW.
+    eapply Nat.lt_le_trans; [rewrite Nat.add_0_r; exact HW|]. unfold W; simpl; lia.
+  - (* 4: absorb *)
+    destruct x; [|destr_k k]. destr_k k.
+    pose proof (absorb_frame absorb_n CI (s_g s)) as F. simpl in F.
+    destruct F as (F1 & F2 & F3 & F4 & F5 & F6 & F7 & F8 & F9 & F10).
+    right. split; [congruence|]. split; [first [reflexivity | destruct (F9 CI) as (Q1 & Q2 & Q3); simpl in Q1; exact Q1 | destruct (F9 CI) as (Q1 & Q2 & Q3 & Q4); simpl in Q1; exact Q1]|]. split; [first [reflexivity | destruct (F9 CI) as (Q1 & Q2 & Q3); simpl in Q3; exact Q3 | destruct (F9 CI) as (Q1 & Q2 & Q3 & Q4); simpl in Q3; exact Q3]|]. intros qh.
+    rewrite Hpen0 by reflexivity.
+    rewrite ?F1, ?F2.
+    pose proof (go_ge2 (g_evd (s_g s)) w qh). unfold W; simpl; lia.
+  - (* 5: looks at the real queue: excluded *)
+    destruct x; [|destr_k k]. exfalso. eapply Hncs; reflexivity.
+  - (* 6: looks at the real queue: excluded *)
+    destruct x; [|destr_k k]. exfalso. eapply Hncs; reflexivity.
+  - (* 7: it is dispatched *)
+    destruct x; [|destr_k k]. destr_k k.
+    match goal with Hr : ret _ _ _ _ = _ |- _ => simpl in Hr; unfold dispatch in Hr; rename Hr into HR end.
+    right. split; [exact Hl|]. split; [first [reflexivity | destruct (F9 CI) as (Q1 & Q2 & Q3); simpl in Q1; exact Q1 | destruct (F9 CI) as (Q1 & Q2 & Q3 & Q4); simpl in Q1; exact Q1]|]. split; [first [reflexivity | destruct (F9 CI) as (Q1 & Q2 & Q3); simpl in Q3; exact Q3 | destruct (F9 CI) as (Q1 & Q2 & Q3 & Q4); simpl in Q3; exact Q3]|]. intros qh.
+    destruct m as [y|].
+    + destruct (next_reply (g_evd (s_g s)) (fst (react y)) (snd (react y)) []) as [[p1 k1] e1] eqn:En. inv HR.
+      rewrite Hpen0 by (eapply next_reply_looks; exact En).
+      pose proof (W_next_reply (g_sockets (s_g s)) _ _ _ _ _ _ qh (Hnoself y) En) as HW.
+      eapply Nat.lt_le_trans; [rewrite Nat.add_0_r; exact HW|]. unfold W, rsn, quits; simpl; lia.
+    + inv HR. rewrite Hpen0 by reflexivity. unfold W, wloop, final; simpl; lia.
+  - (* 8: the poll found nothing *)
+    destruct x; [|destr_k k]. destr_k k.
+    match goal with Hr : ret _ _ _ _ = _ |- _ => simpl in Hr; inv Hr end.
+    right. split; [exact Hl|]. split; [first [reflexivity | destruct (F9 CI) as (Q1 & Q2 & Q3); simpl in Q1; exact Q1 | destruct (F9 CI) as (Q1 & Q2 & Q3 & Q4); simpl in Q1; exact Q1]|]. split; [first [reflexivity | destruct (F9 CI) as (Q1 & Q2 & Q3); simpl in Q3; exact Q3 | destruct (F9 CI) as (Q1 & Q2 & Q3 & Q4); simpl in Q3; exact Q3]|]. intros qh.
+    destruct (g_evd (s_g s)) eqn:Ee.
+    + pose proof (Hpen1 (mkL PIEvLoop []) (s_g s)) as HP. rewrite ?Ee in HP; simpl in HP. specialize (HP eq_refl (fun h => h)).
+      unfold W, wloop, final; simpl; lia.
+    + rewrite Hpen0 by (rewrite ?Ee; reflexivity). unfold W, wloop, final; simpl; lia.
+  - (* 9: about to block *)
+    destruct x; [|destr_k k]. destr_k k.
+    right. split; [exact Hl|]. split; [first [reflexivity | destruct (F9 CI) as (Q1 & Q2 & Q3); simpl in Q1; exact Q1 | destruct (F9 CI) as (Q1 & Q2 & Q3 & Q4); simpl in Q1; exact Q1]|]. split; [first [reflexivity | destruct (F9 CI) as (Q1 & Q2 & Q3); simpl in Q3; exact Q3 | destruct (F9 CI) as (Q1 & Q2 & Q3 & Q4); simpl in Q3; exact Q3]|]. intros qh.
+    pose proof (Hpen1 (mkL (PRecvPark CI w) [KLoop]) (s_g s)) as HP. simpl in HP.
+    assert (Hwl : will_look (g_evd (s_g s)) (PRecvNone CI w) = false) by (destruct w; try reflexivity; congruence).
+    specialize (HP Hwl (fun h => h)).
+    destruct w; try congruence; unfold W, wloop, final; simpl; lia.
+  - (* 10: no socket: cannot happen while the thread is alive *)
+    destruct x; [|destr_k k]. exfalso.
+    match goal with Hs : g_sockets _ = true, Hf : fd_ok _ CI = false |- _ =>
+      destruct (Hsock Hs) as [Ha Ho]; unfold fd_ok in Hf; rewrite Hs, Ha, Ho in Hf; discriminate end.
+  - (* 11: woken (socket) *)
+    destruct x; [|destr_k k]. destr_k k.
+    right. split; [exact Hl|]. split; [first [reflexivity | destruct (F9 CI) as (Q1 & Q2 & Q3); simpl in Q1; exact Q1 | destruct (F9 CI) as (Q1 & Q2 & Q3 & Q4); simpl in Q1; exact Q1]|]. split; [first [reflexivity | destruct (F9 CI) as (Q1 & Q2 & Q3); simpl in Q3; exact Q3 | destruct (F9 CI) as (Q1 & Q2 & Q3 & Q4); simpl in Q3; exact Q3]|]. intros qh. rewrite Hpen0 by reflexivity.
+    match goal with Hs : g_sockets _ = true |- _ => rewrite Hs end. unfold W, wloop, final; simpl; lia.
+  - (* 12: woken (wait-condition) *)
+    destruct x; [|destr_k k]. destr_k k.
+    right. split; [exact Hl|]. split; [first [reflexivity | destruct (F9 CI) as (Q1 & Q2 & Q3); simpl in Q1; exact Q1 | destruct (F9 CI) as (Q1 & Q2 & Q3 & Q4); simpl in Q1; exact Q1]|]. split; [first [reflexivity | destruct (F9 CI) as (Q1 & Q2 & Q3); simpl in Q3; exact Q3 | destruct (F9 CI) as (Q1 & Q2 & Q3 & Q4); simpl in Q3; exact Q3]|]. intros qh. rewrite Hpen0 by reflexivity.
+    match goal with Hs : g_sockets _ = false |- _ => rewrite Hs end. unfold W, wloop, final; simpl; lia.
+  - (* 13 *)
+    right. split; [exact Hl|]. split; [first [reflexivity | destruct (F9 CI) as (Q1 & Q2 & Q3); simpl in Q1; exact Q1 | destruct (F9 CI) as (Q1 & Q2 & Q3 & Q4); simpl in Q1; exact Q1]|]. split; [first [reflexivity | destruct (F9 CI) as (Q1 & Q2 & Q3); simpl in Q3; exact Q3 | destruct (F9 CI) as (Q1 & Q2 & Q3 & Q4); simpl in Q3; exact Q3]|]. intros qh.
+    destruct (g_evd (s_g s)) eqn:Ee.
+    + pose proof (Hpen1 (mkL PIStartupCS k) (s_g s)) as HP. rewrite ?Ee in HP; simpl in HP. specialize (HP eq_refl (fun h => h)). unfold W, wloop, final; simpl; lia.
+    + rewrite Hpen0 by (rewrite ?Ee; reflexivity). unfold W, wloop, final; simpl; lia.
+  - (* 14 *)
+    right. split; [exact Hl|]. split; [first [reflexivity | destruct (F9 CI) as (Q1 & Q2 & Q3); simpl in Q1; exact Q1 | destruct (F9 CI) as (Q1 & Q2 & Q3 & Q4); simpl in Q1; exact Q1]|]. split; [first [reflexivity | destruct (F9 CI) as (Q1 & Q2 & Q3); simpl in Q3; exact Q3 | destruct (F9 CI) as (Q1 & Q2 & Q3 & Q4); simpl in Q3; exact Q3]|]. intros qh.
+    destruct (g_evd (s_g s)) eqn:Ee.
+    + pose proof (Hpen1 (mkL PIAfterStartup k) (s_g s)) as HP. rewrite ?Ee in HP; simpl in HP. specialize (HP eq_refl (fun h => h)). unfold W, wloop, final; simpl; lia.
+    + rewrite Hpen0 by (rewrite ?Ee; reflexivity). unfold W, wloop, final; simpl; lia.
+  - (* 15: the start-up signal to the owner *)
+    match goal with Hs : signal _ _ _ = _ |- _ => pose proof Hs as Hsig; sig_frame Hs end.
+    right. split; [congruence|]. split; [first [reflexivity | destruct (F9 CI) as (Q1 & Q2 & Q3); simpl in Q1; exact Q1 | destruct (F9 CI) as (Q1 & Q2 & Q3 & Q4); simpl in Q1; exact Q1]|]. split; [first [reflexivity | destruct (F9 CI) as (Q1 & Q2 & Q3); simpl in Q3; exact Q3 | destruct (F9 CI) as (Q1 & Q2 & Q3 & Q4); simpl in Q3; exact Q3]|]. intros qh.
+    rewrite ?F1, ?F2.
+    destruct (g_evd (s_g s)) eqn:Ee.
+    + pose proof (Hpen1 (mkL PIAfterStartup k) g') as HP. rewrite ?Ee in HP; simpl in HP.
+      specialize (HP eq_refl (fun h => signal_readable_mono _ _ _ _ _ _ Hnl Hsig h)). unfold W, wloop, final; simpl; lia.
+    + rewrite Hpen0 by (rewrite ?F2, ?Ee; reflexivity). unfold W, wloop, final; simpl; lia.
+  - (* 16 *)
+    right. split; [exact Hl|]. split; [first [reflexivity | destruct (F9 CI) as (Q1 & Q2 & Q3); simpl in Q1; exact Q1 | destruct (F9 CI) as (Q1 & Q2 & Q3 & Q4); simpl in Q1; exact Q1]|]. split; [first [reflexivity | destruct (F9 CI) as (Q1 & Q2 & Q3); simpl in Q3; exact Q3 | destruct (F9 CI) as (Q1 & Q2 & Q3 & Q4); simpl in Q3; exact Q3]|]. intros qh.
+    destruct (g_evd (s_g s)) eqn:Ee.
+    + pose proof (Hpen1 (mkL PILoop k) (s_g s)) as HP. rewrite ?Ee in HP; simpl in HP. specialize (HP eq_refl (fun h => h)). unfold W, wloop, final; simpl; lia.
+    + rewrite Hpen0 by (rewrite ?Ee; reflexivity). unfold W, wloop, final; simpl; lia.
+  - (* 17: default loop: into WaitForNextMessageFromOwner *)
+    right. split; [exact Hl|]. split; [first [reflexivity | destruct (F9 CI) as (Q1 & Q2 & Q3); simpl in Q1; exact Q1 | destruct (F9 CI) as (Q1 & Q2 & Q3 & Q4); simpl in Q1; exact Q1]|]. split; [first [reflexivity | destruct (F9 CI) as (Q1 & Q2 & Q3); simpl in Q3; exact Q3 | destruct (F9 CI) as (Q1 & Q2 & Q3 & Q4); simpl in Q3; exact Q3]|]. intros qh. rewrite Hpen0 by reflexivity.
+    match goal with He : g_evd _ = false |- _ => rewrite He end. unfold W, wloop, final; simpl; lia.
+  - (* 18: event loop *)
+    right. split; [exact Hl|]. split; [first [reflexivity | destruct (F9 CI) as (Q1 & Q2 & Q3); simpl in Q1; exact Q1 | destruct (F9 CI) as (Q1 & Q2 & Q3 & Q4); simpl in Q1; exact Q1]|]. split; [first [reflexivity | destruct (F9 CI) as (Q1 & Q2 & Q3); simpl in Q3; exact Q3 | destruct (F9 CI) as (Q1 & Q2 & Q3 & Q4); simpl in Q3; exact Q3]|]. intros qh.
+    match goal with He : g_evd _ = true |- _ => rename He into Ee end.
+    pose proof (Hpen1 (mkL PIEvLoop k) (s_g s)) as HP. rewrite ?Ee in HP; simpl in HP. specialize (HP eq_refl (fun h => h)).
+    rewrite Ee. unfold W, wloop, final; simpl; lia.
+  - (* 19 *)
+    right. split; [exact Hl|]. split; [first [reflexivity | destruct (F9 CI) as (Q1 & Q2 & Q3); simpl in Q1; exact Q1 | destruct (F9 CI) as (Q1 & Q2 & Q3 & Q4); simpl in Q1; exact Q1]|]. split; [first [reflexivity | destruct (F9 CI) as (Q1 & Q2 & Q3); simpl in Q3; exact Q3 | destruct (F9 CI) as (Q1 & Q2 & Q3 & Q4); simpl in Q3; exact Q3]|]. intros qh.
+    pose proof (Hpen1 (mkL PIEvWait k) (s_g s)) as HP. simpl in HP. specialize (HP eq_refl (fun h => h)). unfold W, wloop, final; simpl; lia.
+  - (* 20 *)
+    right. split; [exact Hl|]. split; [first [reflexivity | destruct (F9 CI) as (Q1 & Q2 & Q3); simpl in Q1; exact Q1 | destruct (F9 CI) as (Q1 & Q2 & Q3 & Q4); simpl in Q1; exact Q1]|]. split; [first [reflexivity | destruct (F9 CI) as (Q1 & Q2 & Q3); simpl in Q3; exact Q3 | destruct (F9 CI) as (Q1 & Q2 & Q3 & Q4); simpl in Q3; exact Q3]|]. intros qh. rewrite Hpen0 by reflexivity.
+    pose proof (go_ge2 (g_evd (s_g s)) WPoll qh). unfold W; simpl; lia.
+  - (* 21 *)
+    right. split; [exact Hl|]. split; [first [reflexivity | destruct (F9 CI) as (Q1 & Q2 & Q3); simpl in Q1; exact Q1 | destruct (F9 CI) as (Q1 & Q2 & Q3 & Q4); simpl in Q1; exact Q1]|]. split; [first [reflexivity | destruct (F9 CI) as (Q1 & Q2 & Q3); simpl in Q3; exact Q3 | destruct (F9 CI) as (Q1 & Q2 & Q3 & Q4); simpl in Q3; exact Q3]|]. intros qh. rewrite Hpen0 by reflexivity. unfold W, wloop, final; simpl; lia.
+  - (* 22 *)
+    right. split; [exact Hl|]. split; [first [reflexivity | destruct (F9 CI) as (Q1 & Q2 & Q3); simpl in Q1; exact Q1 | destruct (F9 CI) as (Q1 & Q2 & Q3 & Q4); simpl in Q1; exact Q1]|]. split; [first [reflexivity | destruct (F9 CI) as (Q1 & Q2 & Q3); simpl in Q3; exact Q3 | destruct (F9 CI) as (Q1 & Q2 & Q3 & Q4); simpl in Q3; exact Q3]|]. intros qh. rewrite Hpen0 by reflexivity. unfold W, wloop, final; simpl; lia.
+  - (* 23: the thread finishes *)
+    left. reflexivity.
+  - (* woken by a user socket: not the internal thread *)
+    destruct x; [|destr_k k]. exfalso.
+    match goal with Hw : wakeable _ CI = true, Hr : readable _ CI = false |- _ => rewrite wakeable_CI in Hw; congruence end.
+Qed.
+
 (* a blocked internal thread (under ipc_ok) sits in one of its two waits, which are not satisfiable *)
 Lemma blocked_int : forall g l, ipc_ok l -> blocked g l = true ->
   will_look (g_evd g) (l_pc l) = false /\ readable g CI = false.
@@ -826,6 +971,51 @@ Proof.
     rewrite (signal_CI_readable _ _ _ _ Hnl Hsig) by (intros Hs; apply Hsock; exact Hs). lia.
 Qed.
 
+Lemma sig_strict_any : forall s u, wf smode emode s -> g_ist (s_g s) = ILive ->
+  blocked (s_g s) (g_il (s_g s)) = true -> c_q (g_ci (s_g s)) <> [] ->
+  is_pend_i (l_pc (s_l s u)) = true ->
+  exists s' ev, sys_step s (LStep (U u) CRun) = Some (s', ev) /\ g_ist (s_g s') = ILive /\
+    c_q (g_ci (s_g s')) = c_q (g_ci (s_g s)) /\ c_rcvd (g_ci (s_g s')) = c_rcvd (g_ci (s_g s)) /\
+    forall qh, mua qh s' < mua qh s.
+Proof.
+  intros s u W0 Hl Hb Hq Pu.
+  pose proof (wf_ipc _ _ _ W0 Hl) as Hi.
+  destruct (blocked_int _ _ Hi Hb) as [Hw Hr].
+  destruct (step_enabled false absorb_n no_limit react _ _ (pend_i_unblocked (s_g s) _ Pu)) as [[[g' l'] e] Hx].
+  exists (mkS g' (upd (s_l s) u l')), e.
+  split; [simpl; rewrite Hx; reflexivity|].
+  apply step_spec in Hx.
+  pose proof (wf_upc _ _ _ W0 u) as Hup.
+  pose proof (wf_live_sock _ _ _ W0 Hl) as Hsock.
+  unfold mua, pen. simpl. rewrite Hw, Hr.
+  destruct (s_l s u) as [p k] eqn:El. simpl in Pu.
+  assert (Hod : 1 <= odist (l_pc (s_l s 0))) by apply odist_ge1.
+  destruct p; try discriminate.
+  - destruct c; try discriminate. destruct first; try discriminate.
+    inversion Hx; subst; clear Hx.
+    match goal with Hs : signal _ _ _ = _ |- _ => pose proof Hs as Hsig; apply signal_frame in Hs;
+      destruct Hs as (F1 & F2 & F3 & F4 & F5 & F6 & F7 & F8 & F9 & F10 & F11 & F12) end.
+    split; [congruence|]. destruct (F9 CI) as (Q & _ & Q3). simpl in Q, Q3.
+    split; [exact Q|]. split; [exact Q3|]. intros qh.
+    rewrite F1, F2, F7. rewrite Hw.
+    rewrite (signal_CI_readable _ _ _ _ Hnl Hsig) by (intros Hs; apply Hsock; exact Hs). lia.
+  - assert (u = 0) by (unfold upc_ok in Hup; simpl in Hup; destruct k; [exact Hup | contradiction]). subst u.
+    inversion Hx; subst; clear Hx. split; [exact Hl|]. split; [reflexivity|]. split; [reflexivity|]. intros qh.
+    rewrite Hw, Hr. simpl. rewrite El. simpl. lia.
+  - assert (u = 0) by (unfold upc_ok in Hup; simpl in Hup; destruct k; [exact Hup | contradiction]). subst u.
+    inversion Hx; subst; clear Hx. split; [exact Hl|]. split; [reflexivity|]. split; [reflexivity|]. intros qh.
+    rewrite Hw, Hr. simpl. rewrite El. simpl.
+    destruct (c_q (g_ci (s_g s))); [contradiction | simpl; lia].
+  - destruct needs; try discriminate.
+    inversion Hx; subst; clear Hx.
+    match goal with Hs : signal _ _ _ = _ |- _ => pose proof Hs as Hsig; apply signal_frame in Hs;
+      destruct Hs as (F1 & F2 & F3 & F4 & F5 & F6 & F7 & F8 & F9 & F10 & F11 & F12) end.
+    split; [congruence|]. destruct (F9 CI) as (Q & _ & Q3). simpl in Q, Q3.
+    split; [exact Q|]. split; [exact Q3|]. intros qh.
+    rewrite F1, F2, F7. rewrite Hw.
+    rewrite (signal_CI_readable _ _ _ _ Hnl Hsig) by (intros Hs; apply Hsock; exact Hs). lia.
+Qed.
+
 (* ---------- infinite executions (with stuttering) and weak fairness ---------- *)
 
 Record frun := mkRun {
@@ -1059,6 +1249,248 @@ Proof.
 Qed.
 
 End OneRun.
+
+(* ================= a queued Message is eventually received ================= *)
+
+Definition hdq (s : sys) : msg := hd None (c_q (g_ci (s_g s))).
+Definition muh (s : sys) : nat := mua [hdq s] s.
+
+Lemma Step_rcvd_user : forall t c g l g' l' ev, upc_ok t l -> Step c g l g' l' ev ->
+  c_rcvd (g_ci g') = c_rcvd (g_ci g).
+Proof.
+  intros t c g l g' l' ev Hu HS. inversion HS; subst; clear HS; unfold upc_ok in Hu; simpl in Hu; try contradiction; auto;
+    try (match goal with Hs : signal _ _ _ = _ |- _ => apply signal_frame in Hs; destruct Hs as (_&_&_&_&_&_&_&_&Hs&_); destruct (Hs CI) as (_&_&Q); exact Q end);
+    try (destruct x; simpl in Hu; try (destruct k; contradiction); reflexivity);
+    try (pose proof (absorb_frame absorb_n x g) as F; simpl in F; destruct F as (_&_&_&_&_&_&_&_&F&_); destruct (F CI) as (_&_&Q&_); exact Q);
+    try (pose proof (alloc_frame g) as F; simpl in F; destruct F as (_&_&_&_&_&_&F); destruct (F CI) as (_&_&Q&_); exact Q);
+    try (pose proof (close_frame g) as F; simpl in F; destruct F as (_&_&_&_&_&_&F); destruct (F CI) as (_&_&Q&_); exact Q);
+    try (unfold park_flags; repeat match goal with y : chanid |- _ => destruct y end; try destruct (u_reg (g_usr g)); reflexivity);
+    try (match goal with Hu' : user_step _ _ = _ |- _ => apply user_step_frame in Hu'; destruct Hu' as [? ->] end; reflexivity).
+Qed.
+
+(* steps of anybody but the internal thread: the head of its queue stays, nothing is received, the measure does not grow *)
+Lemma other_le_h : forall s lab s' ev, R s -> g_ist (s_g s) = ILive -> c_q (g_ci (s_g s)) <> [] ->
+  (forall c, lab <> LStep I c) -> sys_step s lab = Some (s', ev) ->
+  g_ist (s_g s') = ILive /\ c_q (g_ci (s_g s')) <> [] /\ hdq s' = hdq s /\
+  c_rcvd (g_ci (s_g s')) = c_rcvd (g_ci (s_g s)) /\ muh s' <= muh s /\ g_il (s_g s') = g_il (s_g s) /\
+  (readable (s_g s) CI = true -> readable (s_g s') CI = true) /\
+  (forall u, (forall c, lab <> LStep (U u) c) -> l_pc (s_l s' u) = l_pc (s_l s u) \/ l_pc (s_l s u) = PIdle).
+Proof.
+  intros s lab s' ev Rs Hl Hq Hni H.
+  pose proof (reachable_wf false absorb_n no_limit react any_label smode emode s Rs) as W0.
+  pose proof (wf_wfg _ _ _ W0) as Wg.
+  destruct lab as [t o | [t|] c]; simpl in H.
+  - destruct (begin_op t o (s_l s t)) eqn:Hb; [|discriminate]. inv H.
+    unfold begin_op in Hb. destruct (l_pc (s_l s t)) eqn:Hp; try discriminate.
+    destruct (l_k (s_l s t)) eqn:Hk; try discriminate. destruct (allowed t o); [|discriminate]. inv Hb.
+    simpl. repeat split; auto.
+    + unfold muh, mua, hdq. simpl. apply Nat.add_le_mono_l. apply pen_le; simpl; auto.
+      unfold upd. destruct (Nat.eqb_spec 0 t); [subst t; rewrite Hp | lia]. simpl. destruct o as [? ?| | | | | | []]; simpl; lia.
+    + intros u _. unfold upd. destruct (Nat.eqb_spec u t); [subst u; right; exact Hp | left; reflexivity].
+  - destruct (step c (s_g s) (s_l s t)) as [[[g' l'] e']|] eqn:Hst; [|discriminate]. inv H.
+    apply step_spec in Hst.
+    pose proof (wf_upc _ _ _ W0 t) as Hu.
+    assert (Hrun : g_running (s_g s) = true) by (rewrite (wf_running _ _ _ W0), Hl; reflexivity).
+    assert (Hns : forall n, l_pc (s_l s t) <> PStartSpawn n).
+    { intros n Hn. assert (t = 0).
+      { unfold upc_ok in Hu. rewrite Hn in Hu. destruct (l_k (s_l s t)); [exact Hu | contradiction]. }
+      subst t. rewrite (wf_start_idle _ _ _ W0 n Hn) in Hrun. discriminate. }
+    destruct (Step_const _ _ _ _ _ _ _ _ _ _ Hst) as [Hc1 Hc2].
+    assert (Hsame : g_ist g' = g_ist (s_g s) /\ g_il g' = g_il (s_g s)).
+    { destruct (Step_running _ _ _ _ _ _ _ _ _ _ Hst) as [[n Hn] | [Hj | [Hx | (R1 & R2 & R3 & R4)]]]; auto.
+      - exfalso. eapply Hns; eauto.
+      - exfalso. destruct (s_l s t) as [p k]. simpl in Hj. subst p. inversion Hst; subst. congruence.
+      - exfalso. destruct (s_l s t) as [p k]. simpl in Hx. subst p. unfold upc_ok in Hu. simpl in Hu. contradiction. }
+    destruct Hsame as [I1 I2].
+    assert (Hrd : readable (s_g s) CI = true -> readable g' CI = true) by (eapply user_readable_mono; eauto).
+    assert (Hq' : c_q (g_ci g') = c_q (g_ci (s_g s)) \/ exists m, c_q (g_ci g') = c_q (g_ci (s_g s)) ++ [m]).
+    { destruct (Step_qi_user absorb_n no_limit react _ _ _ _ _ _ _ Hu Hst) as [Q | [m Hm]]; [left; exact Q | right].
+      destruct (s_l s t) as [p k]. simpl in Hm. subst p. inversion Hst; subst. exists m. reflexivity. }
+    assert (Hhd : hd None (c_q (g_ci g')) = hd None (c_q (g_ci (s_g s))) /\ c_q (g_ci g') <> []).
+    { destruct Hq' as [-> | [m ->]]; [auto|]. destruct (c_q (g_ci (s_g s))); [contradiction | split; [reflexivity | discriminate]]. }
+    destruct Hhd as [Hh Hne].
+    simpl. split; [congruence|]. split; [exact Hne|]. split; [exact Hh|].
+    split; [eapply Step_rcvd_user; eauto|]. split; [|split; [exact I2 | split; [exact Hrd|]]].
+    + unfold muh, mua, hdq. simpl. rewrite Hc1, Hc2, I2, Hh. apply Nat.add_le_mono_l. apply pen_le; simpl; auto.
+      unfold upd. destruct (Nat.eqb_spec 0 t); [subst t; eapply user_odist; eauto | lia].
+    + intros u Hnu. unfold upd. destruct (Nat.eqb_spec u t); [subst u; exfalso; eapply Hnu; reflexivity | left; reflexivity].
+  - exfalso. eapply Hni; reflexivity.
+Qed.
+
+(* the dequeue itself *)
+Lemma int_step_cs : forall s w k m rest, g_ist (s_g s) = ILive -> g_il (s_g s) = mkL (PRecvCS CI w) k ->
+  c_q (g_ci (s_g s)) = m :: rest ->
+  exists s' ev, sys_step s (LStep I CRun) = Some (s', ev) /\ c_rcvd (g_ci (s_g s')) = c_rcvd (g_ci (s_g s)) ++ [m].
+Proof.
+  intros s w k m rest Hl El Hq. simpl. rewrite Hl, El. unfold ThreadQ.step. simpl. rewrite Hq.
+  eexists. eexists. split; [reflexivity|]. reflexivity.
+Qed.
+
+Definition goodh (s : sys) (n : nat) (rc : list msg) (h : msg) : Prop :=
+  g_ist (s_g s) = ILive /\ c_q (g_ci (s_g s)) <> [] /\ muh s <= n /\ c_rcvd (g_ci (s_g s)) = rc /\ hdq s = h.
+
+Lemma one_step_h : forall r i n rc h, R (f_st r 0) -> goodh (f_st r i) n rc h ->
+  g_ist (s_g (f_st r (S i))) = IExited \/ c_rcvd (g_ci (s_g (f_st r (S i)))) = rc ++ [h] \/
+  (goodh (f_st r (S i)) n rc h /\
+   (f_lb r i = Some (LStep I CRun) -> muh (f_st r (S i)) < muh (f_st r i)) /\
+   (f_lb r i <> Some (LStep I CRun) -> blk (f_st r i) = false -> blk (f_st r (S i)) = false) /\
+   (forall u, f_lb r i <> Some (LStep (U u) CRun) -> pend (f_st r i) u = true -> pend (f_st r (S i)) u = true) /\
+   (forall u, f_lb r i = Some (LStep (U u) CRun) -> pend (f_st r i) u = true -> blk (f_st r i) = true ->
+              muh (f_st r (S i)) < muh (f_st r i))).
+Proof.
+  intros r i n rc h R0 (Hl & Hq & Hm & Hrc & Hh).
+  pose proof (run_reach r R0 i) as Rs.
+  pose proof (reachable_wf false absorb_n no_limit react any_label smode emode _ Rs) as W0.
+  pose proof (f_step r i) as Hs.
+  destruct (f_lb r i) as [lab|] eqn:Elb.
+  2:{ right. right. rewrite Hs. split; [repeat split; auto|].
+      split; [intros H; discriminate|]. split; [auto|]. split; [auto | intros u H; discriminate]. }
+  destruct Hs as [ev Hs].
+  destruct lab as [t o | [t|] c].
+  - assert (Hni : forall c, LBegin t o <> LStep I c) by (intros c H; discriminate H).
+    destruct (other_le_h _ _ _ _ Rs Hl Hq Hni Hs) as (L' & Q' & H' & Rc' & M' & I' & Rd & P').
+    right. right. split; [repeat split; auto; try congruence; lia|].
+    split; [intros H; discriminate|]. split.
+    + intros _ Hb. unfold blk in *. rewrite I'. eapply blocked_mono; eauto. apply (wf_ipc _ _ _ W0 Hl).
+    + split; [|intros u H; discriminate].
+      intros u _ Pu. unfold pend in *.
+      assert (Hnu : forall c, LBegin t o <> LStep (U u) c) by (intros c H; discriminate H).
+      destruct (P' u Hnu) as [E | E]; [rewrite E; exact Pu|]. rewrite E in Pu. discriminate.
+  - assert (Hni : forall c0, LStep (U t) c <> LStep I c0) by (intros c0 H; discriminate H).
+    destruct (other_le_h _ _ _ _ Rs Hl Hq Hni Hs) as (L' & Q' & H' & Rc' & M' & I' & Rd & P').
+    right. right. split; [repeat split; auto; try congruence; lia|].
+    split; [intros H; discriminate|]. split.
+    + intros _ Hb. unfold blk in *. rewrite I'. eapply blocked_mono; eauto. apply (wf_ipc _ _ _ W0 Hl).
+    + split.
+      * intros u Hnu Pu. unfold pend in *.
+        destruct (Nat.eq_dec u t) as [-> | Hne].
+        -- destruct c; [exfalso; apply Hnu; reflexivity|].
+           exfalso. simpl in Hs. rewrite (pend_no_timeout _ _ Pu) in Hs. discriminate.
+        -- destruct (P' u) as [E | E]; [intros c0 H; inv H; congruence | rewrite E; exact Pu | rewrite E in Pu; discriminate].
+      * intros u Hu Pu Hb. inv Hu.
+        destruct (sig_strict_any _ u W0 Hl Hb Hq Pu) as (s' & ev' & Hs' & _ & Q1 & _ & Hlt).
+        rewrite Hs in Hs'. inv Hs'. unfold muh, hdq. rewrite Q1. apply Hlt.
+  - destruct c.
+    + assert (Hb : blk (f_st r i) = false).
+      { unfold blk. destruct (blocked (s_g (f_st r i)) (g_il (s_g (f_st r i)))) eqn:Hb; [|reflexivity].
+        exfalso. simpl in Hs. rewrite Hl, (blocked_no_step _ _ Hb) in Hs. discriminate. }
+      destruct (g_il (s_g (f_st r i))) as [p k] eqn:El.
+      assert (Hcs : (exists w, p = PRecvCS CI w) \/ (forall w, p <> PRecvCS CI w)).
+      { destruct p; try (right; intros w0 H; discriminate). destruct c; [left; eauto | right; intros w0 H; discriminate]. }
+      destruct Hcs as [[w ->] | Hncs].
+      * (* the dequeue *)
+        destruct (c_q (g_ci (s_g (f_st r i)))) as [|m rest] eqn:Eq; [contradiction|].
+        destruct (int_step_cs _ w k m rest Hl El Eq) as (s' & ev' & Hs' & Hr').
+        rewrite Hs in Hs'. inv Hs'. right. left. rewrite Hr'. unfold hdq. rewrite Eq. reflexivity.
+      * assert (Hncs' : forall w, l_pc (g_il (s_g (f_st r i))) <> PRecvCS CI w) by (rewrite El; exact Hncs).
+        assert (Hro : replies_only (g_il (s_g (f_st r i)))) by (apply reachable_ro; assumption).
+        unfold blk in Hb.
+        destruct (int_step_any _ W0 Hl Hb Hro Hncs') as (s' & ev' & Hs' & Hc).
+        rewrite Hs in Hs'. inv Hs'.
+        destruct Hc as [Hx | (Hl' & Q1 & Q3 & Hlt)]; [left; exact Hx|].
+        right. right.
+        assert (Hh' : hdq (f_st r (S i)) = hdq (f_st r i)) by (unfold hdq; rewrite Q1; reflexivity).
+        assert (Hlt' : muh (f_st r (S i)) < muh (f_st r i)) by (unfold muh; rewrite Hh'; apply Hlt).
+        split; [repeat split; auto; try congruence; lia|].
+        split; [intros _; exact Hlt'|]. split; [intros H; exfalso; apply H; reflexivity|].
+        split; [|intros u H; discriminate].
+        intros u _ Pu. unfold pend in *. simpl in Hs. rewrite Hl in Hs.
+        destruct (step CRun (s_g (f_st r i)) (g_il (s_g (f_st r i)))) as [[[g' l'] e']|]; [|discriminate].
+        injection Hs as E1 E2. rewrite <- E1. simpl. exact Pu.
+    + exfalso. rewrite (no_int_timeout _ Rs Hl) in Hs. discriminate.
+Qed.
+
+Section OneRunH.
+Variable r : frun.
+Hypothesis R0 : R (f_st r 0).
+Hypothesis Hfair : fair r.
+
+Notation st := (f_st r).
+Notation lb := (f_lb r).
+
+Definition closerh (i n : nat) (rc : list msg) (h : msg) : Prop :=
+  exists j, i <= j /\ (g_ist (s_g (st j)) = IExited \/ c_rcvd (g_ci (s_g (st j))) = rc ++ [h] \/
+                       (goodh (st j) n rc h /\ muh (st j) < n)).
+
+Lemma unblocked_closerh : forall d i n rc h, goodh (st i) n rc h -> blk (st i) = false ->
+  (lb (i + d) = Some (LStep I CRun) \/ ~ en_I (st (i + d))) -> closerh i n rc h.
+Proof.
+  induction d as [|d IH]; intros i n rc h Hg Hb Hw.
+  - rewrite Nat.add_0_r in Hw.
+    destruct (one_step_h r i n rc h R0 Hg) as [Hx | [Hx | (Hg' & Hlt & _)]];
+      [exists (S i); split; [lia | left; exact Hx] | exists (S i); split; [lia | right; left; exact Hx] |].
+    destruct Hw as [Hw | Hw].
+    + exists (S i). split; [lia|]. right. right. split; [exact Hg'|]. destruct Hg as (_ & _ & Hm & _). specialize (Hlt Hw). lia.
+    + exfalso. apply Hw. destruct Hg as (Hl & _). apply (int_enabled absorb_n no_limit react); assumption.
+  - destruct (one_step_h r i n rc h R0 Hg) as [Hx | [Hx | (Hg' & Hlt & Hpb & _)]];
+      [exists (S i); split; [lia | left; exact Hx] | exists (S i); split; [lia | right; left; exact Hx] |].
+    destruct (is_int_run (lb i)) eqn:Ei.
+    + apply is_int_run_spec in Ei. exists (S i). split; [lia|]. right. right. split; [exact Hg'|].
+      destruct Hg as (_ & _ & Hm & _). specialize (Hlt Ei). lia.
+    + assert (Hne : lb i <> Some (LStep I CRun)) by (intros E; apply is_int_run_spec in E; congruence).
+      destruct (IH (S i) n rc h Hg' (Hpb Hne Hb)) as (j & Hj & Hc); [replace (S i + d) with (i + S d) by lia; exact Hw|].
+      exists j. split; [lia | exact Hc].
+Qed.
+
+Lemma blocked_closerh : forall d i n rc h u, goodh (st i) n rc h -> pend (st i) u = true ->
+  (lb (i + d) = Some (LStep (U u) CRun) \/ ~ en_U u (st (i + d))) -> closerh i n rc h.
+Proof.
+  induction d as [|d IH]; intros i n rc h u Hg Pu Hw.
+  - rewrite Nat.add_0_r in Hw.
+    destruct (blk (st i)) eqn:Hb.
+    2:{ destruct (proj1 Hfair i) as (j & Hj & Hwj). replace j with (i + (j - i)) in Hwj by lia.
+        eapply unblocked_closerh; eauto. }
+    destruct (one_step_h r i n rc h R0 Hg) as [Hx | [Hx | (Hg' & _ & _ & _ & Hstrict)]];
+      [exists (S i); split; [lia | left; exact Hx] | exists (S i); split; [lia | right; left; exact Hx] |].
+    destruct Hw as [Hw | Hw].
+    + exists (S i). split; [lia|]. right. right. split; [exact Hg'|]. destruct Hg as (_ & _ & Hm & _). specialize (Hstrict u Hw Pu Hb). lia.
+    + exfalso. apply Hw. apply (user_enabled absorb_n no_limit react). apply pend_i_unblocked. exact Pu.
+  - destruct (blk (st i)) eqn:Hb.
+    2:{ destruct (proj1 Hfair i) as (j & Hj & Hwj). replace j with (i + (j - i)) in Hwj by lia.
+        eapply unblocked_closerh; eauto. }
+    destruct (one_step_h r i n rc h R0 Hg) as [Hx | [Hx | (Hg' & _ & _ & Hpp & Hstrict)]];
+      [exists (S i); split; [lia | left; exact Hx] | exists (S i); split; [lia | right; left; exact Hx] |].
+    destruct (is_u_run u (lb i)) eqn:Eu.
+    + apply is_u_run_spec in Eu. exists (S i). split; [lia|]. right. right. split; [exact Hg'|].
+      destruct Hg as (_ & _ & Hm & _). specialize (Hstrict u Eu Pu Hb). lia.
+    + assert (Hne : lb i <> Some (LStep (U u) CRun)) by (intros E; apply is_u_run_spec in E; congruence).
+      destruct (IH (S i) n rc h u Hg' (Hpp u Hne Pu)) as (j & Hj & Hc); [replace (S i + d) with (i + S d) by lia; exact Hw|].
+      exists j. split; [lia | exact Hc].
+Qed.
+
+(* Under weak fairness the Message at the head of the internal thread's queue is eventually received (unless the thread
+   finishes first: a NULL Message taken earlier, or its MessageReceivedFromOwner asked to leave) -- whatever the other
+   threads do meanwhile.  With the FIFO theorems: every queued Message is eventually received, in order. *)
+Theorem queued_message_eventually_received : forall i m rest,
+  g_ist (s_g (st i)) = ILive -> c_q (g_ci (s_g (st i))) = m :: rest ->
+  exists j, i <= j /\ (g_ist (s_g (st j)) = IExited \/ c_rcvd (g_ci (s_g (st j))) = c_rcvd (g_ci (s_g (st i))) ++ [m]).
+Proof.
+  intros i m rest Hl Hq.
+  set (rc := c_rcvd (g_ci (s_g (st i)))).
+  assert (Hg : goodh (st i) (muh (st i)) rc m).
+  { repeat split; auto; try lia. rewrite Hq. discriminate. unfold hdq. rewrite Hq. reflexivity. }
+  clearbody rc. remember (muh (st i)) as n eqn:En. clear En Hq Hl. revert i Hg.
+  induction n as [n IH] using lt_wf_ind. intros i Hg.
+  assert (Hc : closerh i n rc m).
+  { destruct Hg as (Hl & Hq & Hm & Hrc & Hh).
+    destruct (blk (st i)) eqn:Hb.
+    - pose proof (run_reach r R0 i) as Rs.
+      pose proof (reachable_wf false absorb_n no_limit react any_label smode emode _ Rs) as W0.
+      pose proof (reachable_wake absorb_n no_limit react Hnl any_label smode emode _ Rs) as Wk.
+      destruct (blocked_int _ _ (wf_ipc _ _ _ W0 Hl) Hb) as [Hw Hr].
+      destruct (wk_ai _ Wk Hl Hw Hq) as [Rd | [u Pu]]; [congruence|].
+      destruct (proj2 Hfair u i) as (j & Hj & Hwj). replace j with (i + (j - i)) in Hwj by lia.
+      eapply blocked_closerh; eauto. repeat split; auto.
+    - destruct (proj1 Hfair i) as (j & Hj & Hwj). replace j with (i + (j - i)) in Hwj by lia.
+      eapply unblocked_closerh; eauto. repeat split; auto. }
+  destruct Hc as (j & Hj & [Hx | [Hx | (Hg' & Hlt)]]); [exists j; auto | exists j; auto |].
+  assert (Hg'' : goodh (st j) (muh (st j)) rc m).
+  { destruct Hg' as (A & B & C & D & E). repeat split; auto. }
+  destruct (IH (muh (st j)) Hlt j Hg'') as (j' & Hj' & Hx).
+  exists j'. split; [lia | exact Hx].
+Qed.
+
+End OneRunH.
 
 End Progress.
 
